@@ -2,6 +2,7 @@
 from __future__ import annotations
 
 import ast
+import re
 import itertools
 from typing import Dict, List, Optional
 
@@ -25,6 +26,18 @@ SHAPES = {
 ANSWERS_ITS_REQUEST = {
     "chuk_mcp.protocol.types.elicitation:ElicitationClient.handle_elicitation_request": "answers the elicitation request it was handed: that request's id is the id to answer (demanding a guard would ask more than the property)",
 }
+
+
+def _ifexp_non_none(n: ast.IfExp) -> bool:
+    """`L if x is None else x` / `x if x is not None else L` with L a non-None literal"""
+    t = ast.unparse(n.test)
+    lit = lambda e: isinstance(e, (ast.Dict, ast.List, ast.Tuple, ast.JoinedStr)) or (isinstance(e, ast.Constant) and e.value is not None)  # noqa: E731
+    body, other = ast.unparse(n.body), ast.unparse(n.orelse)
+    if t == f"{other} is None" and lit(n.body):
+        return True
+    if t == f"{body} is not None" and lit(n.orelse):
+        return True
+    return False
 
 
 def classify_keys(keys: set) -> Optional[str]:
@@ -65,7 +78,7 @@ def check(P: Project, R: Report) -> None:
             ok = False
             if hook is not None:
                 txt = ast.unparse(hook.node)
-                ok = "isinstance(self.error['code'], int)" in txt and "isinstance(self.error['message'], str)" in txt and txt.count("raise ValueError") >= 2
+                ok = bool(re.search(r"isinstance\(self\.error(\['code'\]|\.get\('code'\)), int\)", txt)) and bool(re.search(r"isinstance\(self\.error(\['message'\]|\.get\('message'\)), str\)", txt)) and txt.count("raise ValueError") >= 2
             R.ob("R1", f"{cname} rejects a non-int code / non-str message in model_post_init", ok, where, "")
 
     # ------------------------------------------------------------------ R2: dict displays
@@ -115,6 +128,12 @@ def check(P: Project, R: Report) -> None:
             R.ob("R2", f"{tag}: key set is one of the four shapes", kind is not None, where, f"keys {sorted(keys)}" + (" plus ** or computed keys" if dyn else ""), sample=f"R2 {f.fq}:{d.lineno} → {kind}")
             if kind == "error":
                 ev = vals["error"]
+                if isinstance(ev, ast.Name):
+                    # the error object bound to a local first: read its single definition
+                    ds_ = [s_ for s_ in walk_local(f.node) if isinstance(s_, (ast.Assign, ast.AnnAssign)) and ast.unparse(s_.targets[0] if isinstance(s_, ast.Assign) else s_.target) == ev.id]
+                    touched_ = [x for x in walk_local(f.node) if isinstance(x, ast.Subscript) and isinstance(x.ctx, ast.Store) and isinstance(x.value, ast.Name) and x.value.id == ev.id and not (isinstance(x.slice, ast.Constant) and x.slice.value == "data")]
+                    if len(ds_) == 1 and isinstance(ds_[0].value, ast.Dict) and not touched_:
+                        ev = ds_[0].value
                 if isinstance(ev, ast.Dict):
                     ek = {k.value: v for k, v in zip(ev.keys, ev.values) if isinstance(k, ast.Constant)}
                     code = try_fold(P, f.module, ek["code"]) if "code" in ek else None
@@ -161,6 +180,10 @@ def check(P: Project, R: Report) -> None:
                         rnode = None
                     if isinstance(rnode, (ast.Dict, ast.List, ast.Tuple, ast.JoinedStr)) or (isinstance(rnode, ast.Constant) and rnode.value is not None):
                         ok_r, why = True, f"result is the literal `{rt[:30]}`"
+                    elif isinstance(rnode, ast.IfExp) and _ifexp_non_none(rnode):
+                        ok_r, why = True, f"result `{rt[:40]}` replaces None by a literal"
+                    elif isinstance(rnode, ast.BoolOp) and isinstance(rnode.op, ast.Or) and isinstance(rnode.values[-1], (ast.Dict, ast.List)) :
+                        ok_r, why = True, f"result `{rt[:40]}` falls back to a literal"
                     elif f"{rt} is not None" in lits or rt in lits:
                         ok_r, why = True, f"result `{rt[:30]}` is known not to be None on the path"
                     else:
